@@ -568,3 +568,20 @@ def run(ctx):
                       'urllib.parse of CPython 3.12 is modelled (Location/Quote.v), validated differentially only'],
         not_modelled=['other context kinds and MDS type scopes of mk_scopes', 'XML transport of scopes (ScopesType list parsing)',
                       'SdcLocation.__eq__/__hash__', 'UTF-8 encode/decode', 'ipaddress / unicodedata checks inside urlsplit'])
+
+
+def replay(ctx, rep):
+    """./check C16 --replay <file>: run the recorded case again on the implementation and print what it does."""
+    stream, case = rep.get('stream'), rep.get('case')
+    if not case:
+        print(json.dumps(rep, indent=1)[:4000])
+        return 0
+    key = {'roundtrip': 'roundtrip', 'published': 'published', 'foreign': 'foreign'}.get(stream)
+    if key is None:
+        print(json.dumps(rep, indent=1)[:4000])
+        return 0
+    impl = ctx.impl('c16_impl', {key: [case]})
+    print(f'stream {stream}; case: {json.dumps(case)[:1500]}')
+    print('implementation now:', json.dumps(impl.get(key, impl))[:3000])
+    print('recorded          :', json.dumps(rep.get('impl_trace'))[:3000])
+    return 0
